@@ -107,6 +107,16 @@ let dispatch (w : string list) : string =
       match fp_of_limbs (n_of_string a) (n_of_string b) (n_of_string c) with
       | Some x -> "ok " ^ hex_of_fp x
       | None -> "none")
+  | [ "fp.vec"; a ] -> hex_of_fp (fp_of_hex a)
+  | [ "fp.const" ] ->
+      let be = List.rev (bytes_of_le (nat_of_int 24) (Z.to_N p)) in
+      let hx = String.concat "" (List.map (fun x -> Printf.sprintf "%02x" (int_of_n x)) be) in
+      let i = ref 0 in
+      while !i < String.length hx - 1 && hx.[!i] = '0' do incr i done;
+      let zi z = int_of_n (Z.to_N z) in
+      Printf.sprintf "modulus=%s num_bits=%d capacity=%d s=%d two_inv=%s gen=%s rou=%s rou_inv=%s delta=%s"
+        (String.sub hx !i (String.length hx - !i)) (zi f_num_bits) (zi f_capacity) (zi f_S)
+        (hex_of_fp f_two_inv) (hex_of_fp f_gen) (hex_of_fp f_rou) (hex_of_fp f_rou_inv) (hex_of_fp f_delta)
   (* ---------------- sharks ---------------- *)
   | [ "sharks.deal"; t; secret; niter; words ] -> (
       let ws = List.map n_of_string (split_on ',' words) in
